@@ -36,7 +36,7 @@ func c17(c *ctx) {
 	cases := [][]string{{"deadlock"}, {"orphan"}, {"hookvar"}, {"doubleterm"}}
 	nStress := 3
 	if c.thorough() {
-		nStress = 8
+		nStress = 16
 	}
 	for i := 0; i < nStress; i++ {
 		cases = append(cases, []string{"stress", fmt.Sprint(i)})
@@ -478,7 +478,7 @@ func c17Stress(c *ctx) {
 	rig.putUser(2, 3, 400, 1<<50, 1<<40)
 	iters := 400
 	if c.thorough() {
-		iters = 2500
+		iters = 6000
 	}
 	var progress int64
 	var mu sync.Mutex
